@@ -100,6 +100,8 @@ func c02(r *core.Run) {
 	r.Rule("N2", "wake-up: every push on S.workqueue is followed on all paths by Signal/Broadcast on the worker condition; Cond.Wait sits in a loop that re-checks the queue", 2)
 	r.Rule("O1", "single sequential listener: request handling is called only from the listener loop, the listener only from serve by a plain call on the channel stored as the in-channel, and there is no go statement on the call path serve ->* enqueue", 4)
 	r.Rule("H1", "no orphaned work items across restarts (shared with C01.H1): the group registry is re-created before the workers of a run start and the service is stopped only after all workers exited; otherwise an entry left by a Shutdown with queued work survives, later submissions for that group are appended to a work item no worker owns and never run", 2)
+	r.Rule("W2", "With finds every handler that matches (shared with C06.R12): the matcher records a literal or placeholder node as the match only when it has a handler, otherwise it goes on to the placeholder and wildcard siblings; else With reports an error and runs nothing for an id that a registered handler matches", 1)
+	r.Rule("W3", "With looks the handler up without touching shared state (shared with C06.R6): no function reachable from Mux.GetHandler writes Mux / node / handler state or appends into a slice held there; With, Resource and the listener run lookups concurrently, so a shared scratch buffer makes With report an error for a resource that has a handler, or queue the callback under another resource's group", 1)
 	r.Rule("H2", "an accepted callback has a worker (shared with C03.S2): every worker is started before the service is published as started - the state from which enqueue accepts callbacks; a callback accepted earlier than that sits in the queue with nobody to run it (an OnServe callback waiting for its own With callback never returns)", 1)
 	r.Rule("V1", "each queued callback handles its own message (shared with C15.C1 / C16.V1): no closure created in a loop and handed to the queue captures a variable the loop re-assigns - with the module's go directive a shared loop variable makes every queued closure see the latest message, so one is handled several times and another never", 1)
 	r.Rule("A2", "order across producers: the lookup of a group's pending work item and the register/append that follows are one critical section (same obligations as C01.A2): otherwise two producers can create two work items for one group and later submissions overtake earlier ones", 4)
@@ -111,74 +113,11 @@ func c02(r *core.Run) {
 	}
 	root := p.FuncsOfPkg("")
 
-	// cb parameter of enqueue
-	var cb *ssa.Parameter
-	for _, prm := range a.Enqueue.Params {
-		if sig, ok := prm.Type().Underlying().(*types.Signature); ok && sig.Params().Len() == 0 {
-			cb = prm
-		}
-	}
-
 	// ---- Q1 --------------------------------------------------------------
-	for _, ac := range core.FieldAccesses(root, func(f core.Field) bool { return f == a.WQueue }) {
-		fn := core.FuncName(ac.Fn)
-		switch ac.Kind {
-		case "store":
-			st := ac.Instr.(*ssa.Store)
-			if freshBase(ac.Addr, st) {
-				cbHere := cbParamIn(p, ac.Fn, a.Enqueue, cb, 0)
-				ok := p.Within(ac.Fn, a.Enqueue) && cbHere != nil && containsVal(st.Val, cbHere, 0)
-				hi := int64(-1)
-				if sl, isSl := st.Val.(*ssa.Slice); isSl && sl.High != nil {
-					hi, _ = core.ConstInt(sl.High)
-				}
-				oneElem := hi == 1 || hi == -1
-				r.Check(ok && oneElem, "Q1", fn, "store(fresh "+a.WQueue.String()+")=[cb]", p.InstrPos(st), "new item's queue is a one-element slice holding the submitted callback", "the new work item's queue does not hold exactly the submitted callback")
-				continue
-			}
-			call, isCall := st.Val.(*ssa.Call)
-			good := isCall && core.CalleeName(call) == "builtin:append"
-			if good {
-				lf, ok := core.LoadedField(call.Call.Args[0])
-				cbHere := cbParamIn(p, ac.Fn, a.Enqueue, cb, 0)
-				good = ok && lf == a.WQueue && len(call.Call.Args) == 2 && cbHere != nil && elemOfVarargs(call.Call.Args[1]) == ssa.Value(cbHere)
-			}
-			r.Check(good && p.Within(ac.Fn, a.Enqueue), "Q1", fn, "store("+a.WQueue.String()+")=append(self,cb)", p.InstrPos(st), "tail append of the submitted callback to the item's own queue", "store to the callback queue is not a tail-append of the submitted callback (order or content of pending callbacks can change)")
-		case "load":
-			ld := ac.Instr.(ssa.Value)
-			okUse := true
-			desc := []string{}
-			if refs := ld.Referrers(); refs != nil {
-				for _, rf := range *refs {
-					switch x := rf.(type) {
-					case *ssa.Call:
-						n := core.CalleeName(x)
-						if n == "builtin:len" || n == "builtin:append" {
-							desc = append(desc, n)
-						} else {
-							okUse = false
-							desc = append(desc, n)
-						}
-					case *ssa.IndexAddr:
-						desc = append(desc, "index")
-						if !p.Within(ac.Fn, a.Drain) {
-							okUse = false
-						}
-					case *ssa.DebugRef:
-					default:
-						okUse = false
-						desc = append(desc, fmt.Sprintf("%T", rf))
-					}
-				}
-			}
-			r.Check(okUse, "Q1", fn, "load("+a.WQueue.String()+")->"+strings.Join(desc, "+"), p.InstrPos(ac.Instr), "read used only for len / append source / drain index", "the callback queue is read in an unexpected way: "+strings.Join(desc, "+"))
-		case "addr-nested", "addr-escape", "addr-other":
-			r.Bad("Q1", fn, ac.Kind+"("+a.WQueue.String()+")", p.InstrPos(ac.Instr), "address of the callback queue escapes")
-		}
-	}
+	c02GroupQueue(r, "Q1", a, root)
 
 	// ---- Q2 --------------------------------------------------------------
-	c02Drain(r, a)
+	c02Drain(r, "Q2", a)
 
 	// ---- Q3 --------------------------------------------------------------
 	c02WorkQueueShape(r, "Q3", a, root)
@@ -305,11 +244,85 @@ func c02(r *core.Run) {
 	// ---- H1 (shared with C01) ---------------------------------------------
 	c01Restart(r, "H1", a, root)
 	c03WorkersBeforeStarted(r, "H2", a, root)
+	c06PureLookup(r, "W3")
+	if ro := resolveMuxRolesFor(r, "W2"); ro != nil {
+		c06AcceptHasHandler(r, "W2", root, ro)
+	}
 	// ---- W1 --------------------------------------------------------------
 	c02With(r, a, root)
 }
 
-func c02Drain(r *core.Run, a *svcAnchors) {
+// c02GroupQueue: FIFO shape of a work item's callback queue (C02.Q1; shared
+// with C04.R12).
+func c02GroupQueue(r *core.Run, rule string, a *svcAnchors, root []*ssa.Function) {
+	p := r.P
+	// cb parameter of enqueue
+	var cb *ssa.Parameter
+	for _, prm := range a.Enqueue.Params {
+		if sig, ok := prm.Type().Underlying().(*types.Signature); ok && sig.Params().Len() == 0 {
+			cb = prm
+		}
+	}
+
+	for _, ac := range core.FieldAccesses(root, func(f core.Field) bool { return f == a.WQueue }) {
+		fn := core.FuncName(ac.Fn)
+		switch ac.Kind {
+		case "store":
+			st := ac.Instr.(*ssa.Store)
+			if freshBase(ac.Addr, st) {
+				cbHere := cbParamIn(p, ac.Fn, a.Enqueue, cb, 0)
+				ok := p.Within(ac.Fn, a.Enqueue) && cbHere != nil && containsVal(st.Val, cbHere, 0)
+				hi := int64(-1)
+				if sl, isSl := st.Val.(*ssa.Slice); isSl && sl.High != nil {
+					hi, _ = core.ConstInt(sl.High)
+				}
+				oneElem := hi == 1 || hi == -1
+				r.Check(ok && oneElem, rule, fn, "store(fresh "+a.WQueue.String()+")=[cb]", p.InstrPos(st), "new item's queue is a one-element slice holding the submitted callback", "the new work item's queue does not hold exactly the submitted callback")
+				continue
+			}
+			call, isCall := st.Val.(*ssa.Call)
+			good := isCall && core.CalleeName(call) == "builtin:append"
+			if good {
+				lf, ok := core.LoadedField(call.Call.Args[0])
+				cbHere := cbParamIn(p, ac.Fn, a.Enqueue, cb, 0)
+				good = ok && lf == a.WQueue && len(call.Call.Args) == 2 && cbHere != nil && elemOfVarargs(call.Call.Args[1]) == ssa.Value(cbHere)
+			}
+			r.Check(good && p.Within(ac.Fn, a.Enqueue), rule, fn, "store("+a.WQueue.String()+")=append(self,cb)", p.InstrPos(st), "tail append of the submitted callback to the item's own queue", "store to the callback queue is not a tail-append of the submitted callback (order or content of pending callbacks can change)")
+		case "load":
+			ld := ac.Instr.(ssa.Value)
+			okUse := true
+			desc := []string{}
+			if refs := ld.Referrers(); refs != nil {
+				for _, rf := range *refs {
+					switch x := rf.(type) {
+					case *ssa.Call:
+						n := core.CalleeName(x)
+						if n == "builtin:len" || n == "builtin:append" {
+							desc = append(desc, n)
+						} else {
+							okUse = false
+							desc = append(desc, n)
+						}
+					case *ssa.IndexAddr:
+						desc = append(desc, "index")
+						if !p.Within(ac.Fn, a.Drain) {
+							okUse = false
+						}
+					case *ssa.DebugRef:
+					default:
+						okUse = false
+						desc = append(desc, fmt.Sprintf("%T", rf))
+					}
+				}
+			}
+			r.Check(okUse, rule, fn, "load("+a.WQueue.String()+")->"+strings.Join(desc, "+"), p.InstrPos(ac.Instr), "read used only for len / append source / drain index", "the callback queue is read in an unexpected way: "+strings.Join(desc, "+"))
+		case "addr-nested", "addr-escape", "addr-other":
+			r.Bad(rule, fn, ac.Kind+"("+a.WQueue.String()+")", p.InstrPos(ac.Instr), "address of the callback queue escapes")
+		}
+	}
+}
+
+func c02Drain(r *core.Run, rule string, a *svcAnchors) {
 	p := r.P
 	fn := a.Drain
 	fname := core.FuncName(fn)
@@ -353,7 +366,7 @@ func c02Drain(r *core.Run, a *svcAnchors) {
 		if idx != nil {
 			d = valDesc(idx)
 		}
-		r.Bad("Q2", fname, "counter-is-loop-phi", p.Pos(fn.Pos()), "the drain index is not a loop-carried counter: "+d)
+		r.Bad(rule, fname, "counter-is-loop-phi", p.Pos(fn.Pos()), "the drain index is not a loop-carried counter: "+d)
 		return
 	}
 	startsAt0, stepOne := false, true
@@ -379,7 +392,7 @@ func c02Drain(r *core.Run, a *svcAnchors) {
 			stepOne = false
 		}
 	}
-	r.Check(startsAt0 && stepOne && nBack > 0, "Q2", fname, "counter:0,+1", p.InstrPos(phi), "counter starts at 0 and every back edge carries counter+1", "the drain counter does not start at 0 or does not advance by exactly one per iteration (a callback is skipped or run twice)")
+	r.Check(startsAt0 && stepOne && nBack > 0, rule, fname, "counter:0,+1", p.InstrPos(phi), "counter starts at 0 and every back edge carries counter+1", "the drain counter does not start at 0 or does not advance by exactly one per iteration (a callback is skipped or run twice)")
 	// loop condition compares len(queue) with the counter
 	condOK := false
 	if iff, ok := phi.Block().Instrs[len(phi.Block().Instrs)-1].(*ssa.If); ok {
@@ -391,7 +404,7 @@ func c02Drain(r *core.Run, a *svcAnchors) {
 			condOK = true
 		}
 	}
-	r.Check(condOK, "Q2", fname, "loop-condition:len(queue)~counter", p.InstrPos(phi), "loop head compares the re-loaded queue length with the counter", "loop head does not compare len(queue) with the counter")
+	r.Check(condOK, rule, fname, "loop-condition:len(queue)~counter", p.InstrPos(phi), "loop head compares the re-loaded queue length with the counter", "loop head does not compare len(queue) with the counter")
 	// per-iteration call count
 	const (
 		ent   = 0
@@ -442,9 +455,9 @@ func c02Drain(r *core.Run, a *svcAnchors) {
 			}
 		}
 	}
-	r.Check(!bad && len(elemCalls) > 0, "Q2", fname, "one-call-per-iteration", p.Pos(fn.Pos()), "every loop iteration calls the element at [counter] exactly once", "some iteration of the drain loop calls no element or more than one (skip / duplicate)")
+	r.Check(!bad && len(elemCalls) > 0, rule, fname, "one-call-per-iteration", p.Pos(fn.Pos()), "every loop iteration calls the element at [counter] exactly once", "some iteration of the drain loop calls no element or more than one (skip / duplicate)")
 	for _, c := range elemCalls {
-		r.Check(!core.IsGo(c) && !core.IsDefer(c), "Q2", fname, "element-call-is-synchronous", p.InstrPos(c), "plain call", "queue element is started with go/defer: callbacks of the group would overlap or reorder")
+		r.Check(!core.IsGo(c) && !core.IsDefer(c), rule, fname, "element-call-is-synchronous", p.InstrPos(c), "plain call", "queue element is started with go/defer: callbacks of the group would overlap or reorder")
 	}
 }
 
